@@ -98,6 +98,9 @@ func runC12(c *report.Ctx) {
 	c.Clause("3b the reservation a runtime answers to is released only by its own success; restore releases only a parked runtime")
 	checkInvokeRefusalPath(c)
 	checkHandleRestore(c)
+	checkNoServerTimeouts(c)
+	checkRuntimeReleaseUnconditional(c)
+	checkReplySinkGuards(c)
 	c.Clause("4 routes")
 	checkRuntimeRoutes(c)
 }
